@@ -297,7 +297,7 @@ impl Mon {
                 return;
             }
         };
-        let usd = ru(out as u128) * px.low(false).v / pow10(bq.mint_decimals as u32);
+        let usd = ru(out as u128) * px.low(false).v / pow10(balance_decimals(bq));
         let whole = to_u64_floor(&usd).unwrap_or(u64::MAX);
         // reference window
         let st = self.delev.entry(gk).or_insert((0i64, 0u64));
@@ -777,7 +777,7 @@ impl Mon {
                             let dt = if x.last_update < 1681989983 { 0 } else { (info.now as u64).saturating_sub(x.last_update) };
                             let (qa, ql) = (w_(&x.asset_shares) * w_(&bq.asset_share_value), w_(&x.liability_shares) * w_(&bq.liability_share_value));
                             let amt = rmax(&qa, &ql);
-                            bound += amt * ru(dt as u128) * ru(bq.emissions_rate as u128) / (ri(31_536_000) * pow10(bq.mint_decimals as u32));
+                            bound += amt * ru(dt as u128) * ru(bq.emissions_rate as u128) / (ri(31_536_000) * pow10(balance_decimals(bq)));
                             // lower bound: a position whose emission clock was moved to now was
                             // claimed for; if its side earns emissions it must have been credited
                             // in proportion to its size (at the smaller of the share values seen)
@@ -790,7 +790,7 @@ impl Mon {
                                 let shares = if side_liab { w_(&x.liability_shares) } else { w_(&x.asset_shares) };
                                 let low_amt = shares * if sv(bp) < sv(bq) { sv(bp) } else { sv(bq) };
                                 let rate = ru(bq.emissions_rate as u128);
-                                let exact = low_amt * ru(dt as u128) * &rate / (ri(31_536_000) * pow10(bq.mint_decimals as u32));
+                                let exact = low_amt * ru(dt as u128) * &rate / (ri(31_536_000) * pow10(balance_decimals(bq)));
                                 // the program truncates amount/10^dec and the division by the year on the 2^-48 grid before multiplying by the rate
                                 low_bound += exact - (&rate * ri(4) + ri(8)) * ulp();
                                 low_n += 1;
